@@ -80,6 +80,8 @@ def rule_line_basics(rep: Report, rid="C04.indent") -> None:
     for name, want_fn in (("startswith", lambda s, a: ("call", ".startswith", (("attr", s, N.TRIMMED), a), ())),
                           ("startswith_title_keyword", lambda s, a: ("call", ".startswith", (("attr", s, N.TRIMMED), ("binop", "Add", a, const(":"))), ())),
                           ("is_empty", lambda s, a: mk_not(("attr", s, N.TRIMMED)))):
+        if not facts().has_func(f"{LQ}.{name}"):
+            continue        # a helper that no longer exists constrains nothing; its callers are checked on their normal forms
         I, fi, tree, rv, st = _run(f"{LQ}.{name}")
         rep.used_function(fi.qualname)
         s = ("param", fi.params()[0])
